@@ -257,10 +257,44 @@ func isNodeSetExpr(e Expr) bool {
 	return false
 }
 
+// bigNodeSetComparisons: the one node that decides an existential comparison is the LAST of 1100 (past 1024), the first,
+// or one in the middle; on either side; against a number, a string and other node-sets
+func bigNodeSetComparisons(rn *Runner) {
+	const n = 1100
+	st := func(nm string) Event { return Event{Kind: EvStart, B: nm} }
+	tx := func(v string) Event { return Event{Kind: EvText, A: v} }
+	end := Event{Kind: EvEnd}
+	evs := []Event{st("r")}
+	for k := 1; k <= n; k++ {
+		evs = append(evs, st("i"), tx(fmt.Sprint(k)), end)
+	}
+	evs = append(evs, st("k"), tx(fmt.Sprint(n)), end, st("m"), tx("1050"), end, st("z"), tx("0"), end, st("big"), tx(fmt.Sprint(n+1)), end, end)
+	d := rn.NewDoc(evs)
+	env := stdEnv()
+	path := func(names ...string) Expr {
+		ss := []*Stp{}
+		for _, nm := range names {
+			ss = append(ss, &Stp{Axis: "child", Test: NodeTest{Kind: "name", Local: nm}, Abbrev: true})
+		}
+		return &EPath{Abs: true, Steps: ss}
+	}
+	is := path("r", "i")
+	others := []Expr{num(fmt.Sprint(n)), num("1099.5"), lit(fmt.Sprint(n)), path("r", "k"), path("r", "big"),
+		&EPath{Abs: true, Steps: []*Stp{{Axis: "child", Test: NodeTest{Kind: "name", Local: "r"}, Abbrev: true}, {Axis: "child", Test: NodeTest{Kind: "name", Local: "i"}, Abbrev: true, Preds: []Expr{bin(">", call("position"), num("1098"))}}}}}
+	for _, o := range others {
+		for _, op := range []string{"=", "!=", "<", "<=", ">", ">="} {
+			rn.scalar(d, env, Path{}, bin(op, is, o), "comparison-large-node-set", "existential over ALL the nodes of the operand", true)
+			rn.scalar(d, env, Path{}, bin(op, o, is), "comparison-large-node-set", "existential over ALL the nodes of the operand", true)
+		}
+	}
+	rn.DropDoc(d)
+}
+
 func famC05(rn *Runner) {
 	rn.stressEvery = 4 // node-sets of more than 64 nodes on both sides
 	cmpOps := []string{"=", "!=", "<", "<=", ">", ">="}
 	mirror := map[string]string{"<": ">", "<=": ">=", ">": "<", ">=": "<=", "=": "=", "!=": "!="}
+	bigNodeSetComparisons(rn)
 	for di := 0; di < rn.Scale(8, 100) && !rn.TooMany(); di++ {
 		d := rn.genDoc(rn.Scale(40, 100))
 		rn.checkCallerResults(d, "all") // a caller-implemented Result as variable and function result
@@ -462,6 +496,19 @@ func famC07(rn *Runner) {
 			}
 		}
 		if i%50 == 0 {
+			// literals holding characters no XML document can hold (C0 controls, U+FFFE, U+FFFF), DEL, NEL, no-break and other spaces,
+			// a byte order mark: a literal is its characters, all of them
+			for _, c := range []string{"\x01", "\x08", "\x0b", "\x0c", "\x1f", "\x7f", "\u0085", "\u00a0", "\u2028", "\u3000", "\ufeff", "\ufffe", "\uffff", "\ufffd"} {
+				q := "a" + c + "b" + c
+				rn.scalar(d, env, Path{}, call("string-length", lit(q)), "string-functions", "literal with an unusual character", true)
+				rn.scalar(d, env, Path{}, call("concat", lit(c), v("s"), lit(q)), "string-functions", "literal with an unusual character", true)
+				rn.scalar(d, env, Path{}, call("contains", lit(q), lit(c)), "string-functions", "literal with an unusual character", true)
+				rn.scalar(d, env, Path{}, call("substring-after", lit(q), lit(c)), "string-functions", "literal with an unusual character", true)
+				rn.scalar(d, env, Path{}, call("translate", lit(q), lit(c), lit("-")), "string-functions", "literal with an unusual character", true)
+				rn.scalar(d, env, Path{}, call("normalize-space", lit(" "+c+" x "+c)), "string-functions", "literal with an unusual character", true)
+				rn.scalar(d, env, Path{}, bin("=", lit(q), lit("ab")), "string-functions", "literal with an unusual character", true)
+				rn.scalar(d, env, Path{}, call("boolean", lit(c)), "string-functions", "literal with an unusual character", true)
+			}
 			// literals whose value begins or ends with a quote of the other kind
 			for _, q := range []string{"'", "\"", "'x", "x'", "\"x\"", "it's", "''", "'\u00e9"} {
 				rn.scalar(d, env, Path{}, call("string-length", lit(q)), "string-functions", "literal with a quote at its edge", true)
